@@ -155,6 +155,8 @@ def check(run):
     _r6(run, fams)
     _r7(run, mods)
     _r8(run, mods)
+    _r9(run, mods)
+    _r10(run, mods)
     from ..cachekey import check_caches
     check_caches(run, list(mods.values()) + [prog.modules['cherab.openadas.install']], 'C06-K')
 
@@ -529,6 +531,140 @@ def _r7(run, mods):
     run.floor('C06-R7', 12)
 
 
+# ------------------------------------------------------------------------------------------ R9
+def _definitely_assigned(stmts, name, stop):
+    """Every path through stmts up to (not including) the statement `stop` assigns `name`. Returns True / False / None (stop not here)."""
+    for st in stmts:
+        if st is stop or any(x is stop for x in ast.walk(st)) and not _assigns_before_stop(st, name, stop):
+            return False if not any(x is stop for x in ast.walk(st)) or st is stop else _nested(st, name, stop)
+        if _assigns(st, name):
+            return True
+    return None
+
+
+def _assigns(st, name):
+    """statement st assigns `name` on every path through it"""
+    if isinstance(st, ast.Assign):
+        return any(isinstance(t, ast.Name) and t.id == name for t in st.targets)
+    if isinstance(st, ast.If):
+        return bool(st.orelse) and _block_assigns(st.body, name) and _block_assigns(st.orelse, name)
+    if isinstance(st, ast.With):
+        return _block_assigns(st.body, name)
+    if isinstance(st, ast.Try):
+        hs = all(_block_assigns(h.body, name) or always_exits(h.body, loop_exits=False) for h in st.handlers)
+        return (_block_assigns(st.body, name) or _block_assigns(st.orelse, name)) and hs
+    return False
+
+
+def _block_assigns(stmts, name):
+    return any(_assigns(s, name) for s in stmts)
+
+
+def _assigns_before_stop(st, name, stop):
+    return False
+
+
+def _nested(st, name, stop):
+    for f in ('body', 'orelse', 'finalbody'):
+        b = getattr(st, f, None)
+        if isinstance(b, list) and any(x is stop for s2 in b for x in ast.walk(s2)):
+            r = _definitely_assigned(b, name, stop)
+            return bool(r)
+    return False
+
+
+def _r9(run, mods):
+    run.describe('C06-R9', 'the content written to each file of a multi-file update is rebuilt for that file on every path (nothing carried over from the previous file)')
+    n = 0
+    for mname, mi in mods.items():
+        for fname, fn in sorted(mi.functions.items()):
+            for c in [c for c in ast.walk(fn) if isinstance(c, ast.Call) and dotted(c.func) == 'json.dump' and c.args and isinstance(c.args[0], ast.Name)]:
+                x = c.args[0].id
+                loops = [l for l in ast.walk(fn) if isinstance(l, ast.For) and any(y is c for y in ast.walk(l))]
+                if not loops:
+                    continue
+                # the loop whose iterations correspond to files: the innermost loop in which the path opened for writing is computed
+                opens = [w.items[0].context_expr for w in ast.walk(fn) if isinstance(w, ast.With) and any(y is c for y in ast.walk(w))
+                         and isinstance(w.items[0].context_expr, ast.Call) and dotted(w.items[0].context_expr.func) == 'open']
+                pname = opens[0].args[0].id if opens and opens[0].args and isinstance(opens[0].args[0], ast.Name) else None
+                per_file = [l for l in loops if pname and any(isinstance(a, ast.Assign) and any(isinstance(t, ast.Name) and t.id == pname for t in a.targets)
+                                                              for a in ast.walk(l))]
+                if not per_file:
+                    continue        # one file, written repeatedly: accumulation across iterations is intended
+                lp = min(per_file, key=lambda l: sum(1 for _ in ast.walk(l)))
+                stop = [s2 for s2 in ast.walk(lp) if isinstance(s2, ast.stmt) and any(y is c for y in ast.walk(s2))]
+                n += 1
+                run.subject('C06-R9')
+                # first use of x in the iteration: the earliest statement of the loop body that reads or mutates x
+                first_use = None
+                for s2 in lp.body:
+                    uses = [y for y in ast.walk(s2) if isinstance(y, ast.Name) and y.id == x and isinstance(y.ctx, ast.Load)]
+                    if uses and not _assigns(s2, x):
+                        first_use = s2
+                        break
+                    if _assigns(s2, x):
+                        break
+                if first_use is None:
+                    run.ok('C06-R9', '%s.%s %s' % (mname, fname, x), 'assigned on every path of the iteration before it is used', sample=False)
+                else:
+                    run.fail('C06-R9', '%s|%s|carried-over:%s' % (mi.name, fname, x), mi.relpath, first_use.lineno,
+                             "%s uses '%s' in the per-file loop (line %d) before assigning it on every path of that iteration: when the assignment is skipped "
+                             "(e.g. the file does not exist yet) the keys of the previous file are written into this one and become readable although "
+                             "they were never written for it" % (fname, x, lp.lineno))
+    run.subject('C06-R9')
+    run.ok('C06-R9', 'per-file loops', '%d dumps inside loops examined' % n, sample=(n == 0))
+
+
+# ------------------------------------------------------------------------------------------ R10
+_IDENT_CALLS = ('np.array', 'np.asarray', 'numpy.array', 'float', 'int', 'str', 'list', 'tuple', 'np.float64', 'np.ascontiguousarray')
+
+
+def _value_preserving(e, names, depth=0):
+    """e hands a value on unchanged: conversions to array / list / float of a name, subscript or attribute chain"""
+    if isinstance(e, (ast.Name, ast.Constant)):
+        return True
+    if isinstance(e, ast.Subscript):
+        return isinstance(e.slice, (ast.Constant, ast.Name)) and _value_preserving(e.value, names, depth)
+    if isinstance(e, ast.Attribute):
+        return e.attr not in ('T', 'real', 'imag', 'flat') and _value_preserving(e.value, names, depth)
+    if isinstance(e, ast.Call):
+        d = dotted(e.func) or ''
+        if d in _IDENT_CALLS and e.args:
+            return _value_preserving(e.args[0], names, depth)
+        if isinstance(e.func, ast.Attribute) and e.func.attr in ('tolist', 'copy', 'item', 'lower') and not e.args:
+            return _value_preserving(e.func.value, names, depth)
+        if isinstance(e.func, ast.Attribute) and e.func.attr == 'astype':
+            return _value_preserving(e.func.value, names, depth)
+    return False
+
+
+def _r10(run, mods):
+    run.describe('C06-R10', 'numeric tables are stored as given: every local that feeds a stored record field is only ever a type conversion of the input (round trip is bit for bit)')
+    n = 0
+    for mname, mi in mods.items():
+        for fname, fn in sorted(mi.functions.items()):
+            if not (fname.startswith(('update_', '_update_'))):
+                continue
+            recs = [d for d in ast.walk(fn) if isinstance(d, ast.Dict) and d.keys and all(isinstance(k, ast.Constant) and isinstance(k.value, str) for k in d.keys)
+                    and any(isinstance(p_, ast.Assign) and p_.value is d and isinstance(p_.targets[0], ast.Subscript) for p_ in ast.walk(fn))]
+            for d in recs:
+                feeding = {x.id for v in d.values for x in ast.walk(v) if isinstance(x, ast.Name)}
+                for nm in sorted(feeding):
+                    defs = [st for st in ast.walk(fn) if isinstance(st, ast.Assign) and any(isinstance(t, ast.Name) and t.id == nm for t in st.targets)]
+                    augs = [st for st in ast.walk(fn) if isinstance(st, ast.AugAssign) and isinstance(st.target, ast.Name) and st.target.id == nm]
+                    if not defs and not augs:
+                        continue
+                    n += 1
+                    run.subject('C06-R10')
+                    bad = [st for st in defs if not _value_preserving(st.value, feeding)] + augs
+                    if bad:
+                        run.fail('C06-R10', '%s|%s|transformed:%s' % (mi.name, fname, nm), mi.relpath, bad[0].lineno,
+                                 "%s changes '%s' (%s) before storing it: what is read back is not bit for bit what was written" % (fname, nm, norm(bad[0])[:60]))
+                    else:
+                        run.ok('C06-R10', '%s.%s %s' % (mname, fname, nm), '; '.join(norm(st.value)[:40] for st in defs), sample=False)
+    run.floor('C06-R10', 10)
+
+
 # ------------------------------------------------------------------------------------------ R8
 def _r8(run, mods):
     run.describe('C06-R8', 'encode_transition: both levels through str(.).lower(), upper level first')
@@ -563,6 +699,12 @@ _BE = REPO_DIR + 'beam/emission.py'
 _BC = REPO_DIR + 'beam/cx.py'
 _U = REPO_DIR + 'utility.py'
 MUTANTS = [
+    dict(name='pec-content-created-once-for-all-files', file=REPO_DIR + 'pec.py', edits=[
+        dict(file=REPO_DIR + 'pec.py', find="                try:\n                    with open(path, 'r') as f:\n                        content = RecursiveDict.from_dict(json.load(f))\n                except FileNotFoundError:\n                    content = RecursiveDict()\n",
+             replace="                if os.path.isfile(path):\n                    with open(path, 'r') as f:\n                        content = RecursiveDict.from_dict(json.load(f))\n"),
+        dict(file=REPO_DIR + 'pec.py', find="    repository_path = repository_path or DEFAULT_REPOSITORY_PATH\n\n    for cls, elements in rates.items():", replace="    repository_path = repository_path or DEFAULT_REPOSITORY_PATH\n    content = RecursiveDict()\n\n    for cls, elements in rates.items():")], expect='C06-R9'),
+    dict(name='radiated-power-table-transposed-when-square', file=REPO_DIR + 'radiated_power.py',
+         find="        if (ne.shape[0], te.shape[0]) != rate_table.shape:", replace="        if rate_table.shape == (te.shape[0], ne.shape[0]):\n            rate_table = rate_table.T\n        if (ne.shape[0], te.shape[0]) != rate_table.shape:", expect='C06-R10'),
     dict(name='writer-path-template', file=_A, find="        path = os.path.join(repository_path, 'recombination/{}.json'.format(species.symbol.lower()))\n\n        _update_and_write_adf11",
          replace="        path = os.path.join(repository_path, 'recombinations/{}.json'.format(species.symbol.lower()))\n\n        _update_and_write_adf11", expect='C06-R1'),
     dict(name='reader-drops-encode-transition', file=_W, find="return content[encode_transition(transition)]", replace="return content[str(transition)]", expect='C06-R2'),
